@@ -1,7 +1,7 @@
 (* C02 - Mapper errors are precise and a failed call changes no mapping.
    About the abstract tree model (Paging/Tree.v), which the correspondence check ties to the
    three mapper implementations on whole call histories. *)
-From X86 Require Import Paging.Mapped Paging.Tree Paging.TreeProofs Paging.Refine Paging.RefineAtomic Paging.MemAtomic Paging.Recursive Paging.RecRead Paging.RecEquiv Paging.Run.
+From X86 Require Import Paging.Mapped Paging.Tree Paging.TreeProofs Paging.Refine Paging.RefineAtomic Paging.MemAtomic Paging.Recursive Paging.RecRead Paging.RecEquiv Paging.RecMap Paging.Run.
 Open Scope Z_scope.
 
 (* which outcome map_to reports is decided by the state it is called in *)
@@ -138,3 +138,11 @@ Theorem C02_recursive_translate_page_is_mapped_translate_page : forall s ch k pa
   rtranslate_page s k page = Ok (s, translate_page s k page).
 Proof. exact rtranslate_page_eq. Qed.
 Print Assumptions C02_recursive_translate_page_is_mapped_translate_page.
+
+(* ... and map_to: identical result and memory, up to the creation flags of new parent entries *)
+Theorem C02_recursive_map_to_is_mapped_map_to : forall s ch k page frame flags pf,
+  0 <= k <= 2 -> 0 <= rec_index s < 512 -> repx (rec_index s) s ch -> tframe (root s) ->
+  sep s (root s) ch -> pflags_ok pf -> p4_index page <> rec_index s ->
+  rmap_to s k page frame flags pf = map_to_rc true s k page frame flags pf.
+Proof. exact rmap_to_eq. Qed.
+Print Assumptions C02_recursive_map_to_is_mapped_map_to.
